@@ -254,9 +254,9 @@ def value_pool(rng, bits, signed, extra_random=2):
 
 def small_pool(rng, bits, signed):
     lo, hi = rng_of(bits, signed)
-    s = {0, 1, lo, hi - 1, 3, bits - 1, bits, rng.randrange(lo, hi)}
+    s = {0, 1, lo, hi - 1, bits - 1, bits, rng.randrange(lo, hi)}
     if signed:
-        s |= {-1, -7}
+        s |= {-7}
     else:
         s |= {1 << (bits - 1)}
     return sorted(v for v in s if lo <= v < hi)
@@ -681,6 +681,17 @@ def z(v):
     return vlib.coq_z(v)
 
 
+def run_batched(ctx, name, imports, cases, batch=1200):
+    """ctx.run_cases numbers the cases with unary nat literals: keep the indices small"""
+    bad = []
+    for k in range(0, len(cases), batch):
+        r = ctx.run_cases('%s_%d' % (name, k // batch), imports, cases[k:k + batch])
+        if r is None:
+            return None
+        bad += [k + i for i in r]
+    return bad
+
+
 def run(ctx):
     ir, _, _ = _ppci()
     thorough = not ctx.quick()
@@ -718,13 +729,16 @@ def run(ctx):
                 add('correct %s %d %s' % (z(v), bits, 'true' if sg else 'false'),
                     outcome(IrPy.correct, v, bits, sg), ('correct', (v, bits, sg)))
     dp = [0, 1, -1, 2, -2, 3, -3, 7, -7, 100, -100, 127, -128, 2 ** 31 - 1, -2 ** 31, 2 ** 63 - 1, -2 ** 63]
+    if not thorough:
+        dp = [0, 1, -1, 2, -3, 7, -7, 127, -128, 2 ** 31 - 1, -2 ** 63]
     for a in dp:
         for b in dp:
             add('idiv %s %s' % (z(a), z(b)), outcome(IrPy.idiv, a, b), ('idiv', (a, b)))
             add('irem %s %s' % (z(a), z(b)), outcome(IrPy.irem, a, b), ('irem', (a, b)))
-    for a in [0, 1, -1, 5, -5, 127, -128, 255, 2 ** 31 - 1, -2 ** 31, 2 ** 64 - 1]:
-        for n in [0, 1, 2, 7, 8, 9, 31, 32, 33, 63, 64, 65, -1, 255]:
-            for bits in (8, 32, 64):
+    for a in ([0, 1, -1, 5, -5, 127, -128, 255, 2 ** 31 - 1, -2 ** 31, 2 ** 64 - 1] if thorough else
+              [0, 1, -1, -5, -128, 255, 2 ** 64 - 1]):
+        for n in ([0, 1, 2, 7, 8, 9, 31, 32, 33, 63, 64, 65, -1, 255] if thorough else [0, 1, 7, 8, 9, 63, 64, 65, -1, 255]):
+            for bits in ((8, 32, 64) if thorough else (8, 64)):
                 add('ishl %s %s %d' % (z(a), z(n), bits), outcome(IrPy.ishl, a, n, bits), ('ishl', (a, n, bits)))
                 add('ishr %s %s %d' % (z(a), z(n), bits), outcome(IrPy.ishr, a, n, bits), ('ishr', (a, n, bits)))
     n_helper = len(cases)
@@ -755,12 +769,17 @@ def run(ctx):
             if op in ('rol', 'ror'):
                 continue
             fn = ns[idx['binop'][(op, tn)]]
-            for a in pool:
-                for b in pool:
-                    out = outcome(fn, a, b)
-                    add('py_binop %s %s %s %s' % (cop, tn, z(a), z(b)), out, ('binop', (op, tn, a, b)))
-                    if o_binop(op, bits, sg, a, b) is not None and (a or b):
-                        nontriv += 1
+            lo, hi = rng_of(bits, sg)
+            pairs = [(a, b) for a in pool for b in pool]
+            if not thorough:
+                corner = [(lo, lo), (lo, hi - 1), (hi - 1, hi - 1), (hi - 1, lo), (lo, 0), (1, 0), (lo, 1), (hi - 1, bits - 1),
+                          (lo, bits - 1), (1, bits), (lo, -1 if sg else hi - 1)]
+                pairs = sorted(set(corner + ctx.rng.sample(pairs, 17)))
+            for (a, b) in pairs:
+                out = outcome(fn, a, b)
+                add('py_binop %s %s %s %s' % (cop, tn, z(a), z(b)), out, ('binop', (op, tn, a, b)))
+                if o_binop(op, bits, sg, a, b) is not None and (a or b):
+                    nontriv += 1
         for (op, cop) in UNOPS:
             fn = ns[idx['unop'][(op, tn)]]
             for a in value_pool(ctx.rng, bits, sg):
@@ -850,7 +869,10 @@ def run(ctx):
     for r in recs[n_helper + n_text:: max(1, (len(recs) - n_helper - n_text) // 8)]:
         ctx.note_sample({'kind': r[0], 'args': repr(r[1])})
     if model_ok:
-        bad = ctx.run_cases('ir2py', ['Spec.IRSemArith', 'Gen.ir2py_runtime', 'Model.Ir2Py'], cases)
+        import time
+        t0 = time.time()
+        bad = run_batched(ctx, 'ir2py', ['Spec.IRSemArith', 'Gen.ir2py_runtime', 'Model.Ir2Py'], cases)
+        ctx.cov['stages']['correspondence_wall_s'] = round(time.time() - t0, 1)
         if bad:
             for i in bad[:6]:
                 ctx.log('model/implementation disagree on', recs[i], 'impl=',
@@ -859,7 +881,10 @@ def run(ctx):
                                       '%d cases, first: %r' % (len(bad), recs[bad[0]])))
 
     # ---- search
+    import time
+    t0 = time.time()
     search(ctx, shared=(ns, idx, cast_variant, progs, ptext, pv))
+    ctx.cov['stages']['search_wall_s'] = round(time.time() - t0, 1)
     ctx.cov['exhaustive'] = False
 
 
